@@ -48,6 +48,12 @@ def items(tier, seed):
         out += [{"k": "order", "cls": "Scalar", "qt": qt, "u": u, "v": v} for qt, u, v in seeded_sample(allp, 700, seed)]
     out += [{"k": "order", "cls": "FractionScalar", "qt": qt, "u": u, "v": v} for qt, u, v in seeded_sample(allp, 120 if tier == "quick" else 3000, seed + 1)]
     out += [{"k": "order", "cls": c, "qt": "length", "u": "m", "v": "cm"} for c in ("Scalar", "FractionScalar")]
+    for i, c in enumerate(out):
+        if c["k"] == "order":
+            if i % 3 == 0:
+                c["prelude"] = True  # history: an Unknown-quantity value is converted to both units first
+            if c["cls"] == "FractionScalar" and i % 2 == 0:
+                c["fr"] = [-1, 2]  # a negative fractional part
     for other in ("unknown", "unknown_caption", "empty", "s", "degC", "m2_derived", "-"):
         for cls in ("Scalar", "FractionScalar"):
             for side in ("left", "right"):
@@ -88,6 +94,10 @@ def pool(V):
     p["q_Mm3_legacy"] = Quantity("volume", "1000m3")
     p["s_m_x_ctor"] = Scalar(Quantity("length", "m"), x)
     p["q_m2"] = (Scalar(1.0, "m") * Scalar(1.0, "m")).GetQuantity()
+    p["q_m.s"] = (Scalar(1.0, "m") * Scalar(1.0, "s")).GetQuantity()  # the same factors ...
+    p["q_s.m"] = (Scalar(1.0, "s") * Scalar(1.0, "m")).GetQuantity()  # ... in the other order: a different quantity
+    p["s_m.s_x"] = Scalar(x, "m") * Scalar(1.0, "s")
+    p["s_s.m_x"] = Scalar(1.0, "s") * Scalar(x, "m")
     p["q_empty"] = Quantity.CreateEmpty()
     p["q_unknownA"] = GetUnknownQuantity("A")
     p["s_m_x"] = Scalar(x, "m")
@@ -162,10 +172,16 @@ def run(cfg, V):
     x, y = V["x"], V["y"]
     k = cfg["k"]
     if k == "order":
+        if cfg.get("prelude"):
+            from barril.units import Array, GetUnknownQuantity
+
+            for un in (cfg["u"], cfg["v"]):
+                Scalar(GetUnknownQuantity("probe"), 1.0).GetValue(un)
+                Array(GetUnknownQuantity(), [1.0, 2.0]).GetValues(un)
         if cfg["cls"] == "Scalar":
             a, b = Scalar(x, cfg["u"], cfg["qt"]), Scalar(y, cfg["v"], cfg["qt"])
         else:
-            a, b = FractionScalar(FractionValue(x, (1, 2)), cfg["u"], cfg["qt"]), FractionScalar(y, cfg["v"], cfg["qt"])
+            a, b = FractionScalar(FractionValue(x, tuple(cfg.get("fr", [1, 2]))), cfg["u"], cfg["qt"]), FractionScalar(y, cfg["v"], cfg["qt"])
         return {"ab": (a < b, a <= b, a > b, a >= b), "ba": (b < a, b <= a, b > a, b >= a), "eq": (a == b, b == a, a != b)}
     if k == "order_cross":
         from barril.units import GetUnknownQuantity
@@ -197,7 +213,7 @@ def props(cfg, T, obs):
     if k == "order":
         db = get_db("default")
         x, y = T["x"], T["y"]
-        pa = oracle_convert(db, cfg["qt"], cfg["u"], db.GetUnits(cfg["qt"])[0], x + (z3.RealVal("1/2") if cfg["cls"] == "FractionScalar" else 0))
+        pa = oracle_convert(db, cfg["qt"], cfg["u"], db.GetUnits(cfg["qt"])[0], x + (_frac(cfg) if cfg["cls"] == "FractionScalar" else 0))
         pb = oracle_convert(db, cfg["qt"], cfg["v"], db.GetUnits(cfg["qt"])[0], y)
         (lt, le, gt, ge), (lt2, le2, gt2, ge2) = obs["ab"], obs["ba"]
         B = z3.BoolVal
@@ -212,7 +228,7 @@ def props(cfg, T, obs):
             # b <op> a converts a's FRACTIONAL part to b's unit through barril's float-normalising Fraction, which by design snaps numerators
             # with an absolute tolerance (Fraction.SMALL = 1e-8). The claims that must be PROVED allow that window (in b's unit); the strict
             # readings are evaluated too and are an open known finding (see known_findings.json).
-            a_in_b = oracle_convert(db, cfg["qt"], cfg["u"], cfg["v"], x + z3.RealVal("1/2"))
+            a_in_b = oracle_convert(db, cfg["qt"], cfg["u"], cfg["v"], x + _frac(cfg))
             frac_in_b = a_in_b - oracle_convert(db, cfg["qt"], cfg["u"], cfg["v"], x)  # the converted 1/2, which goes through Fraction(float)
             d = z3.RealVal("1/100000000") + z3.RealVal("1/1000000000000") * core.zabs(frac_in_b)  # SMALL + double rounding of the converted numerator
             yb = y
@@ -246,6 +262,11 @@ def props(cfg, T, obs):
         if cfg["a"] == cfg["b"]:
             P.append(("an object equals an identically built object", bool(eq_ab[1])))
     return P
+
+
+def _frac(cfg):
+    p, q = cfg.get("fr", [1, 2])
+    return z3.RealVal(p) / z3.RealVal(q)
 
 
 def finding_key(cfg, name):
